@@ -1816,6 +1816,28 @@ unit(name="SrcSdpkpp", props="property C19", file="src/alignment/sparse.rs",
               theorem="RbV.Thm.GenSrcSdpkpp.unionPath_eq_splice"),
      ])
 
+KMAP = "&HashMapFx<&[u8], Vec<u32>>"
+unit(name="SrcKmerMatches", props="property C19", file="src/alignment/sparse.rs",
+     abstract=[("sortM", SM)], sorts={"(u32, u32)": "sortM"},
+     pinned_items=["pub type HashMapFx<K, V> = HashMap<K, V, BuildHasherDefault<FxHasher>>;"],
+     functions=[
+         dict(name="hash_kmers", lean="hashKmers", header="pub fn hash_kmers(seq: &[u8], k: usize) -> HashMapFx<&[u8], Vec<u32>>",
+              params=[("seq", "&[u8]"), ("k", "usize")], ret="HashMapFx<&[u8], Vec<u32>>",
+              theorem="RbV.Thm.GenSrcKmerMatches.hashKmers_eq_model"),
+         dict(name="find_kmer_matches_seq1_hashed", lean="seq1Hashed",
+              header="pub fn find_kmer_matches_seq1_hashed( seq1_set: &HashMapFx<&[u8], Vec<u32>>, seq2: &[u8], k: usize, ) -> Vec<(u32, u32)>",
+              params=[("seq1_set", KMAP), ("seq2", "&[u8]"), ("k", "usize")], ret="Vec<(u32, u32)>",
+              locals={"matches": "Vec<(u32, u32)>"}, theorem="RbV.Thm.GenSrcKmerMatches.seq1Hashed_eq_model"),
+         dict(name="find_kmer_matches_seq2_hashed", lean="seq2Hashed",
+              header="pub fn find_kmer_matches_seq2_hashed( seq1: &[u8], seq2_set: &HashMapFx<&[u8], Vec<u32>>, k: usize, ) -> Vec<(u32, u32)>",
+              params=[("seq1", "&[u8]"), ("seq2_set", KMAP), ("k", "usize")], ret="Vec<(u32, u32)>",
+              locals={"matches": "Vec<(u32, u32)>"}, theorem="RbV.Thm.GenSrcKmerMatches.seq2Hashed_eq_model"),
+         dict(name="find_kmer_matches", lean="findKmerMatches",
+              header="pub fn find_kmer_matches(seq1: &[u8], seq2: &[u8], k: usize) -> Vec<(u32, u32)>",
+              params=[("seq1", "&[u8]"), ("seq2", "&[u8]"), ("k", "usize")], ret="Vec<(u32, u32)>",
+              theorem="RbV.Thm.GenSrcKmerMatches.findKmerMatches_eq_model"),
+     ])
+
 # ================================================================================================== self-test
 
 SELFTEST_RS = r"""
